@@ -56,7 +56,10 @@ def spec_job(args):
             root = spec.root
             for n in range(6):
                 for params in root.possible_parameters(n):
-                    got = list(spec.generate_objects_of_size(n, **params))
+                    try:
+                        got = list(spec.generate_objects_of_size(n, **params))
+                    except NotImplementedError:
+                        break  # the root rule does not support object generation (e.g. a reverse rule)
                     p = [int(params[k]) for k in root.extra_parameters]
                     events.append({"op": "objects", "form": "spec:root-generate", "c": namer(root), "n": n,
                                    "objs": [[p, [rulelab.word_ints(root, w) for w in got]]],
@@ -90,6 +93,8 @@ def spec_job(args):
                         try:
                             for _script, (obj, ar) in all_runs(one, limit=3000):
                                 runs.append({"obj": rulelab.word_ints(root, obj), "arities": [int(a) for a in ar]})
+                        except NotImplementedError:
+                            continue  # this specification does not support sampling (e.g. it contains reverse rules)
                         except Exception as e:
                             events.append({"op": "global", "c": namer(root), "n": n, "params": [int(x) for x in p], "count": int(cnt), "D": 1,
                                            "runs": [{"obj": [-1], "arities": [1]}], "error": type(e).__name__ + str(e)[:80]})
